@@ -16,7 +16,7 @@ cp "$SD"/demo/*.go "$WT/$DEST/"
 ( cd "$WT" && go test -vet=off -count=1 ./pkg/... ./server/... ./client/... ./cmd/... 2>&1 | grep -v "no test files" | grep -v "^ok" ); 
 ( cd "$WT" && go test -vet=off -count=1 "$@" > /tmp/seedeval-$TAG.patched 2>&1 ); p=$?
 echo "demo: clean rc=$c  patched rc=$p   (want 0 / non-0)"
-rm -rf "$WT/$DEST"
+for f in "$SD"/demo/*.go; do rm -f "$WT/$DEST/$(basename $f)"; done
 cd /verif && VERIF_REPO="$WT" ./check "$ID" quick > ".run/seed-$TAG.log" 2>&1; rc=$?
 echo "check $ID on seeded change: rc=$rc violations=$(grep -c '^VIOLATION' .run/seed-$TAG.log) keys: $(grep -o 'key=[^ ]*' .run/seed-$TAG.log | sort | uniq -c | sort -rn | head -4 | tr '\n' ' ')"
 git -C /repo worktree remove --force "$WT"
